@@ -24,6 +24,7 @@ class Scheduler:
         self.local = threading.local()
         self.gate_connections = gate_connections
         self.broken = False
+        self.seq = 0
 
     def expected_waiting(self):
         return min(self.k, self.n - self.finished)
@@ -62,7 +63,9 @@ class Scheduler:
 
     def wrap(self, orig):
         def w(host, port, aconf):
-            name = '%s:%s' % (host, port)
+            with self.cv:
+                self.seq += 1
+                name = '%s:%s#%d' % (host, port, self.seq)     # unique even when a target is listed twice
             self.local.target = name
             self._gate(name, 'start')
             try:
